@@ -23,3 +23,4 @@ PROPERTY LateBindAgrees
 PROPERTY ConstructAgrees
 PROPERTY ValuesDoNotMatter
 PROPERTY RebindOrderFree
+PROPERTY CloneIsolated
